@@ -140,8 +140,20 @@ LD lin_integral(Lin const& l)
 hep::vegas_pdf<T> adapted_grid(Rng& rng, std::size_t dims, std::size_t bins, std::string& kind)
 {
     hep::vegas_pdf<T> pdf(dims, bins);
-    unsigned k = rng.below(4);
+    unsigned k = rng.below(5);
     if (k == 0) { kind = "uniform"; return pdf; }
+    if (k == 4)
+    {
+        // every interior boundary of the uniform grid moved by the same amount: the interior bins keep the width 1/bins exactly
+        // (dyadic bin counts) but are not where the uniform grid has them
+        kind = "uniform-grid-with-shifted-interior-boundaries";
+        for (std::size_t d = 0; d < dims; ++d)
+        {
+            T shift = (T(1) / T(bins)) * (rng.below(2) ? T(0.5) : T(-0.25));
+            for (std::size_t b = 1; b < bins; ++b) pdf.set_bin_left(d, b, T(b) / T(bins) + shift);
+        }
+        return pdf;
+    }
     if (k == 1 || k == 2)
     {
         kind = k == 1 ? "random-user-grid" : "user-grid-with-narrow-and-zero-width-bins";
